@@ -329,6 +329,18 @@ class P:
 
     def stmt(self):
         v = self.peek()
+        if v == "use":
+            # `use a::b::Enum::*;` inside a function body: the unit variants of a (configured, fieldless) enum
+            # become usable by their bare names; anything else is refused
+            self.eat()
+            path = [self.eat()]
+            while self.peek() == "::":
+                self.eat()
+                path.append(self.eat())
+            self.eat(";")
+            if len(path) < 2 or path[-1] != "*":
+                raise Unsupported("use declaration other than a glob import of an enum's variants")
+            return ("use_enum", path[-2])
         if v in ("let", "static", "const"):
             self.eat()
             pat = self.pattern()
@@ -434,7 +446,8 @@ class P:
         if nxt in ASSIGN_OPS:
             self.eat()
             rhs = self.expr()
-            self.eat(";")
+            if self.peek() != "}":      # `{ a = b }`: an assignment closing a block has the value `()`, as with `;`
+                self.eat(";")
             if nxt != "=":
                 rhs = ("bin", nxt[:-1], e, rhs)
             return ("assign", e, rhs)
@@ -851,6 +864,7 @@ class Tr:
         self.consts = consts   # name -> (value, type or None)
         self.fns = fns         # name -> Sig
         self.asserts = []
+        self.glob_enums = []   # enums whose unit variants a `use Enum::*;` of the body brought into scope
         self.sinks = set()     # names of the (&mut usize, &mut [u8]) bit-sink parameters
         self.cur_file = None
         self.foreign = set()   # callees whose translation comes from another file than the caller
@@ -1033,6 +1047,14 @@ class Tr:
                 t = INT_TYPES[e[1][0]]
                 v = (2 ** t[1] - 1 if name == "MAX" else 0) if t[0] == "U" else (2 ** (t[1] - 1) - 1 if name == "MAX" else -2 ** (t[1] - 1))
                 return ("%d" % v if t[0] == "U" else "(%d : Int)" % v), t
+            if len(e[1]) == 1 and name not in self.consts:
+                # a unit variant brought into scope by `use Enum::*;` (locals, matched above, and module-level
+                # constants shadow glob imports; two globs offering the same name would be ambiguous in Rust)
+                offers = [en for en in self.glob_enums if name in self.enums[en]]
+                if len(offers) > 1:
+                    raise Unsupported("variant %s offered by several glob imports" % name)
+                if offers:
+                    return "%d" % self.enums[offers[0]][name], ("E", offers[0])
             if name in self.consts:
                 v, t = self.consts[name]
                 t = t or want or ("U", 64)
@@ -1641,6 +1663,12 @@ class Tr:
             return ctx.fall(env)
         st, tail = stmts[0], stmts[1:]
         k = st[0]
+        if k == "use_enum":
+            if st[1] not in self.enums:
+                raise Unsupported("glob import of %s, which is not a configured fieldless enum" % st[1])
+            if st[1] not in self.glob_enums:
+                self.glob_enums = self.glob_enums + [st[1]]
+            return self.seq(tail, env, rest, ctx)
         if k == "assert":
             self.asserts.append(st[1])
             if st[2] is None:
